@@ -109,8 +109,16 @@ class Case17:
                 res.notes.append("call expected to fail returned %r" % (r,))
                 PENDING += incall
                 return "ok"
-            self.check_traceback(e, tags, pending_before, incall)
-            self.check_error(e, tags)
+            try:
+                mx.get_traceback(); mx.get_traceback(show_locals=True); mx.get_error()
+            except Exception as x:
+                self.fail("chk-traceback-raises", "get_traceback()/get_error() raised %s: %s after a failed call"
+                          % (type(x).__name__, str(x)[:200]),
+                          "try:\n    mx.get_traceback(); mx.get_traceback(show_locals=True); mx.get_error()\n"
+                          "except Exception:\n    sys.exit(1)\nsys.exit(0)", tags)
+            else:
+                self.check_traceback(e, tags, pending_before, incall)
+                self.check_error(e, tags)
         PENDING = []          # the executor built its error stack: everything pending was consumed
         return "err"
 
